@@ -39,10 +39,31 @@ func init() {
 	})
 }
 
+// argIsVar reports whether some argument of the call is the variable v itself.
+func argIsVar(m *core.Model, call *ast.CallExpr, v types.Object) bool {
+	for _, a := range call.Args {
+		if id, ok := ast.Unparen(a).(*ast.Ident); ok && v != nil && m.Info.ObjectOf(id) == v {
+			return true
+		}
+	}
+	return false
+}
+
 func fieldKeyOf(m *core.Model, e ast.Expr) string {
+	if e == nil {
+		return ""
+	}
 	if sel, ok := ast.Unparen(e).(*ast.SelectorExpr); ok {
 		if fld := m.FieldOf(sel); fld != nil {
 			return m.FieldKey(fld)
+		}
+	}
+	// a local that names a field read (rows := t.len)
+	if id, ok := ast.Unparen(e).(*ast.Ident); ok && m.Info.Defs[id] == nil {
+		if sel, ok := ast.Unparen(m.Inline(id)).(*ast.SelectorExpr); ok {
+			if fld := m.FieldOf(sel); fld != nil {
+				return m.FieldKey(fld)
+			}
 		}
 	}
 	return ""
@@ -147,10 +168,8 @@ func c04r1(c *core.Ctx) {
 			Node: func(s bool, _ *cfg.Block, n ast.Node) bool {
 				core.WalkEval(n, func(x ast.Node, cond bool) {
 					if call, ok := x.(*ast.CallExpr); ok && !cond {
-						if k, cal, _ := m.Callee(call); k == core.CallStatic && cal == registrar && len(call.Args) == 1 {
-							if id, ok := ast.Unparen(call.Args[0]).(*ast.Ident); ok && m.Info.ObjectOf(id) == rp {
-								s = false
-							}
+						if k, cal, _ := m.Callee(call); k == core.CallStatic && cal == registrar && argIsVar(m, call, rp) {
+							s = false
 						}
 					}
 				})
@@ -254,10 +273,8 @@ func c04r1(c *core.Ctx) {
 				if !ok {
 					return false
 				}
-				if k, cal, _ := m.Callee(call); k == core.CallStatic && cal == registrar && len(call.Args) == 1 {
-					if id, ok := ast.Unparen(call.Args[0]).(*ast.Ident); ok && m.Info.ObjectOf(id) == crp {
-						return true
-					}
+				if k, cal, _ := m.Callee(call); k == core.CallStatic && cal == registrar && argIsVar(m, call, crp) {
+					return true
 				}
 				return false
 			}) {
@@ -293,70 +310,92 @@ func c04r2(c *core.Ctx) {
 		for _, rc := range recycles {
 			ent := m.ExprString(rc.Args[0])
 			subject := fmt.Sprintf("%s: recycle of %s", f.Name, ent)
-			// idiom 1: `if isTarget[e.id] { cleanup(e); isTarget[e.id] = false }` in the function
-			// idiom 2: `if isTarget[e.id] { list = append(list, e) }` ... `for _, x := range list { cleanup(x); isTarget[x.id] = false }`
+			// Stated on paths: somewhere the target flag of this entity is tested; under its true outcome (in any form:
+			// guarded block, early return on the negation) the cleanup role is called for the entity and the flag is
+			// cleared — or the entity is appended to a list that a later loop cleans element by element.
 			tested, cleaned, cleared, deferredList := false, false, false, ""
 			var cleanupAfter token.Pos
+			roles := cleanupRole(c)
+			aboutEnt := func(e ast.Expr, name string) bool {
+				e = ast.Unparen(m.StripConv(e))
+				if m.ExprString(e) == name {
+					return true
+				}
+				if sel, ok := e.(*ast.SelectorExpr); ok && fieldKeyOf(m, sel) == "Entity.id" && m.ExprString(ast.Unparen(sel.X)) == name {
+					return true
+				}
+				return false
+			}
+			flagAtom := func(at core.Atom, name string) bool {
+				ix, ok := ast.Unparen(at.Expr).(*ast.IndexExpr)
+				return ok && at.Truth && fieldKeyOf(m, ix.X) == "storage.isTarget" && aboutEnt(ix.Index, name)
+			}
+			underFlag := func(n ast.Node, name string) bool {
+				spec := core.GuardSpec{
+					Only:      f,
+					GuardAtom: func(ff *core.Func, at core.Atom) bool { return flagAtom(at, name) },
+					Needs: func(ff *core.Func, x ast.Node) []core.Witness {
+						if x == n {
+							return []core.Witness{{What: "node"}}
+						}
+						return nil
+					},
+					SkipCallee: func(*core.Func) bool { return true },
+				}
+				return len(m.MustPrecede(spec).Unguarded[f]) == 0
+			}
 			core.InspectNoLits(f.Body, func(n ast.Node) bool {
-				is, ok := n.(*ast.IfStmt)
-				if !ok {
-					return true
+				if ix, ok := n.(*ast.IndexExpr); ok && fieldKeyOf(m, ix.X) == "storage.isTarget" && aboutEnt(ix.Index, ent) {
+					tested = true
 				}
-				ix, ok := ast.Unparen(is.Cond).(*ast.IndexExpr)
-				if !ok || fieldKeyOf(m, ix.X) != "storage.isTarget" {
-					return true
-				}
-				if sel, ok := m.StripConv(ix.Index).(*ast.SelectorExpr); !ok || m.ExprString(sel.X) != ent {
-					return true
-				}
-				tested = true
-				for _, st := range is.Body.List {
-					switch x := st.(type) {
-					case *ast.ExprStmt:
-						if call, ok := x.X.(*ast.CallExpr); ok && len(call.Args) == 1 && m.ExprString(call.Args[0]) == ent {
-							if k, _, _ := m.Callee(call); k == core.CallStatic {
-								cleaned = true
-								cleanupAfter = call.Pos()
+				switch x := n.(type) {
+				case *ast.ExprStmt:
+					if call, ok := x.X.(*ast.CallExpr); ok && len(call.Args) == 1 && aboutEnt(call.Args[0], ent) {
+						if k, cal, _ := m.Callee(call); k == core.CallStatic && roles[cal] && underFlag(call, ent) {
+							cleaned = true
+							cleanupAfter = call.Pos()
+						}
+					}
+				case *ast.AssignStmt:
+					if len(x.Lhs) == 1 && len(x.Rhs) == 1 {
+						if ix2, ok := ast.Unparen(x.Lhs[0]).(*ast.IndexExpr); ok && fieldKeyOf(m, ix2.X) == "storage.isTarget" && aboutEnt(ix2.Index, ent) {
+							if tv, ok := m.Info.Types[x.Rhs[0]]; ok && tv.Value != nil && tv.Value.String() == "false" && underFlag(x, ent) {
+								cleared = true
 							}
 						}
-					case *ast.AssignStmt:
-						if len(x.Lhs) == 1 && len(x.Rhs) == 1 {
-							if ix2, ok := ast.Unparen(x.Lhs[0]).(*ast.IndexExpr); ok && fieldKeyOf(m, ix2.X) == "storage.isTarget" {
-								if tv, ok := m.Info.Types[x.Rhs[0]]; ok && tv.Value != nil && tv.Value.String() == "false" {
-									cleared = true
-								}
-							}
-							if call, ok := ast.Unparen(x.Rhs[0]).(*ast.CallExpr); ok && m.IsBuiltin(call, "append") && len(call.Args) == 2 && m.ExprString(call.Args[1]) == ent {
-								deferredList = m.ExprString(x.Lhs[0])
-							}
+						if call, ok := ast.Unparen(x.Rhs[0]).(*ast.CallExpr); ok && m.IsBuiltin(call, "append") && len(call.Args) == 2 && aboutEnt(call.Args[1], ent) && underFlag(x, ent) {
+							deferredList = m.ExprString(x.Lhs[0])
 						}
 					}
 				}
 				return true
 			})
 			if deferredList != "" {
-				// the deferred loop
+				// the deferred loop: cleans every element of the list and clears its flag
 				core.InspectNoLits(f.Body, func(n ast.Node) bool {
 					rs, ok := n.(*ast.RangeStmt)
 					if !ok || m.ExprString(rs.X) != deferredList || rs.Value == nil {
 						return true
 					}
 					v := m.ExprString(rs.Value)
-					for _, st := range rs.Body.List {
-						switch x := st.(type) {
-						case *ast.ExprStmt:
-							if call, ok := x.X.(*ast.CallExpr); ok && len(call.Args) == 1 && m.ExprString(call.Args[0]) == v {
-								cleaned = true
-								cleanupAfter = call.Pos()
+					ast.Inspect(rs.Body, func(y ast.Node) bool {
+						switch x := y.(type) {
+						case *ast.CallExpr:
+							if len(x.Args) == 1 && aboutEnt(x.Args[0], v) {
+								if k, cal, _ := m.Callee(x); k == core.CallStatic && cal.Sig != nil && cal.Sig.Results().Len() == 0 && len(c.Eff.Stores(cal)) > 0 {
+									cleaned = true
+									cleanupAfter = x.Pos()
+								}
 							}
 						case *ast.AssignStmt:
 							if len(x.Lhs) == 1 {
-								if ix2, ok := ast.Unparen(x.Lhs[0]).(*ast.IndexExpr); ok && fieldKeyOf(m, ix2.X) == "storage.isTarget" {
+								if ix2, ok := ast.Unparen(x.Lhs[0]).(*ast.IndexExpr); ok && fieldKeyOf(m, ix2.X) == "storage.isTarget" && aboutEnt(ix2.Index, v) {
 									cleared = true
 								}
 							}
 						}
-					}
+						return true
+					})
 					return true
 				})
 			}
@@ -1013,23 +1052,54 @@ func cleanupRole(c *core.Ctx) map[*core.Func]bool {
 	m := c.M
 	out := map[*core.Func]bool{}
 	for _, f := range m.AllFuncs() {
+		// candidate calls: result-less calls made as statements with one argument that is an entity or an entity id
+		var cands []*ast.CallExpr
+		mentions := false
 		core.InspectNoLits(f.Body, func(n ast.Node) bool {
-			// direct: if isTarget[e.id] { cleanup(e) }
-			if is, ok := n.(*ast.IfStmt); ok {
-				if ix, ok := ast.Unparen(is.Cond).(*ast.IndexExpr); ok && fieldKeyOf(m, ix.X) == "storage.isTarget" {
-					for _, st := range is.Body.List {
-						if es, ok := st.(*ast.ExprStmt); ok {
-							if call, ok := es.X.(*ast.CallExpr); ok && len(call.Args) == 1 {
-								if k, cal, _ := m.Callee(call); k == core.CallStatic && core.NamedName(m.Info.TypeOf(call.Args[0])) == "Entity" {
-									out[cal] = true
-								}
-							}
+			switch x := n.(type) {
+			case *ast.IndexExpr:
+				if fieldKeyOf(m, x.X) == "storage.isTarget" {
+					mentions = true
+				}
+			case *ast.ExprStmt:
+				if call, ok := x.X.(*ast.CallExpr); ok && len(call.Args) == 1 {
+					if k, cal, _ := m.Callee(call); k == core.CallStatic && cal.Sig != nil && cal.Sig.Results().Len() == 0 {
+						switch core.NamedName(m.Info.TypeOf(call.Args[0])) {
+						case "Entity", "entityID":
+							cands = append(cands, call)
 						}
 					}
 				}
 			}
 			return true
 		})
+		if !mentions {
+			continue
+		}
+		// the cleanup is what runs only when the target flag of the entity was found set: dominated by the true outcome
+		// of a test of storage.isTarget[...], in whatever form (guarded block or early return)
+		for _, call := range cands {
+			call := call
+			spec := core.GuardSpec{
+				Only: f,
+				GuardAtom: func(ff *core.Func, at core.Atom) bool {
+					ix, ok := ast.Unparen(at.Expr).(*ast.IndexExpr)
+					return ok && at.Truth && fieldKeyOf(m, ix.X) == "storage.isTarget"
+				},
+				Needs: func(ff *core.Func, n ast.Node) []core.Witness {
+					if n == ast.Node(call) {
+						return []core.Witness{{What: "call"}}
+					}
+					return nil
+				},
+				SkipCallee: func(*core.Func) bool { return true },
+			}
+			if len(m.MustPrecede(spec).Unguarded[f]) == 0 {
+				if _, cal, _ := m.Callee(call); cal != nil {
+					out[cal] = true
+				}
+			}
+		}
 	}
 	return out
 }
